@@ -52,11 +52,18 @@ func parseTimeZoneToNas(timezone string) int {
 		time += 0
 	}
 
+	// The daylight saving adjustment may outweigh a negative zone ("-00:30+1" is +00:30)
+	negative := timezone[0] == '-'
+	if time < 0 {
+		time = -time
+		negative = false
+	}
+
 	// Convert decimal to binary-coded decimal
 	time = toBinaryCodedDecimal(time)
 
 	// Add signed number
-	if timezone[0] == '-' {
+	if negative {
 		time |= 0x80
 	}
 
